@@ -471,3 +471,24 @@ func RunCRL(t CRLTemplate) (*Result, error) {
 	r.StdObs, r.StdErr = stdRLObs(der, iss.std, false)
 	return r, nil
 }
+
+// IssuerFor: a CA certificate (crlSign, SKID) holding a key of the given type, and that key.
+func IssuerFor(kt string) (*zx509.Certificate, *Key, error) {
+	b, err := buildIssuer(Issuer{Subject: Name{CN: "C03 Issuer " + kt}.Norm(), SKID: "c0c1c2c3", Key: kt, CRLSign: true, CanSign: true})
+	if err != nil {
+		return nil, nil, err
+	}
+	return b.z, b.key, nil
+}
+
+// CertHolding: a certificate (created by the standard library, parsed by zcrypto) whose subject
+// key is k - the way a verifier usually meets a public key.
+func CertHolding(k *Key) (*zx509.Certificate, error) {
+	tmpl := &stdx509.Certificate{SerialNumber: big.NewInt(3000), RawSubject: StdRDN(Name{CN: "key holder"}),
+		NotBefore: T2000, NotAfter: T2000.AddDate(60, 0, 0)}
+	der, err := stdx509.CreateCertificate(rand.Reader, tmpl, tmpl, k.StdPub, k.StdPriv)
+	if err != nil {
+		return nil, err
+	}
+	return zx509.ParseCertificate(der)
+}
